@@ -55,6 +55,23 @@ where
     }
 }
 
+#[cfg(gluon_verif)]
+impl<T> Lazy<T> {
+    /// Verification hook: the thread whose heap `force` clones the result into.
+    pub fn verif_thread(&self) -> &Thread {
+        &self.thread
+    }
+
+    /// Verification hook: look at the current state (`thunk`, `value` or `blackhole`).
+    pub fn verif_with_state<R>(&self, f: impl FnOnce(&'static str, Option<&Value>) -> R) -> R {
+        match &*self.value.lock().unwrap() {
+            Lazy_::Blackhole(..) => f("blackhole", None),
+            Lazy_::Thunk(v) => f("thunk", Some(v)),
+            Lazy_::Value(v) => f("value", Some(v)),
+        }
+    }
+}
+
 impl<T> fmt::Debug for Lazy<T> {
     fn fmt(&self, f: &mut fmt::Formatter) -> fmt::Result {
         write!(f, "Lazy({:?})", *self.value.lock().unwrap())
